@@ -586,7 +586,6 @@ func (w *wf) bodyBasesNoHelpers() []string {
 	return uniq(used)
 }
 
-
 func canonName(c *ssa.Call) string {
 	n, _ := canonCall(c)
 	return n
